@@ -158,5 +158,35 @@ def truthy : PVal F → Bool
   | .dict d => !d.isEmpty
   | .enum _ v => v != 0
 
+
+/-! ### accessors shared by the models and the specifications -/
+
+/-- `value + 0.0`: the float a Python number is; `none` = the addition raises (`TypeError` for
+non-numbers — an `EnumMember` refuses `+= 0.0` too, lib/enum.py:222-227 — or `OverflowError` for a
+huge `int`) -/
+def toFloat? : PVal F → Option F
+  | .bool b => ofBool b
+  | .int i => ofInt i
+  | .float x => some (addZero x)
+  | _ => Option.none
+
+/-- what `ArrayOf.check_type` / `TupleOf.check_type` let through: real sequences.  `str`, `bytes`
+and `dict` have a length but are refused; everything else has no `len()` -/
+def seqItems? : PVal F → Option (List (PVal F))
+  | .tuple l => some l
+  | .list l => some l
+  | _ => Option.none
+
+/-- the items of `previous` an array pairs its elements with (`if previous:` …), padded with `None` -/
+def prevItems : Option (PVal F) → List (PVal F)
+  | some (.tuple l) => l
+  | some (.list l) => l
+  | _ => []
+
+/-- the dict a struct starts from: `dict(previous or {})` -/
+def prevFields : Option (PVal F) → List (String × PVal F)
+  | some (.dict d) => d
+  | _ => []
+
 end PVal
 end Frappy
